@@ -4,6 +4,10 @@
     wserver <maxChunk> <contentLength> <hexstream> <readsize>*   → `ok <hex text>` | `err UnicodeDecodeError`, then ` chunks=<n>`
     wframe <hex contentType> <hex body>              → `<client CL> <server CL> <cgi CL> <hex body bytes>`
     wtarget <hex scheme> <hex netloc> <hex path> <hex query>  → `ok <hex target>` | `err OSError`
+    wpost <maxChunk> <hex contentType> <hex faultText> <contentLength|none> <hexstream> <dispatch> <readsize>*
+          dispatch = echo | none | empty | raise | text:<hex>
+                                                     → `<status> <Content-length> <hex Content-type> <hex body bytes>`
+    wcgi <hex encoding> <hex contentType> <hex body> → `ok <Content-Length> <hex Content-Type> <hex body bytes>` | `err <Class>`
 -/
 import JRV.Driver.Codec
 import JRV.Model.Wire
@@ -49,8 +53,10 @@ def wframeC (toks : List String) : String :=
     match strOfHex? ct, strOfHex? body with
     | some ct, some body =>
       let c := clientHeaders (fun _ => "") ct "ua" body [] []
-      let s := serverReply ct body
-      let g := cgiReply ct body
+      let s := serverReply ct (some body)
+      let g := match cgiReply "UTF-8" ct body with
+        | .ok r => r
+        | .error _ => ([], [])
       let val := fun (ls : List (String × String)) => ((ls.drop 1).head?.map (·.2)).getD "?"
       let ctv := fun (ls : List (String × String)) => (ls.head?.map (·.2)).getD "?"
       String.intercalate " " [val c, val s.1, val g.1, hexOfBytes s.2, hexOfStr (ctv c), hexOfStr (ctv s.1), hexOfStr (ctv g.1)]
@@ -65,8 +71,39 @@ def wtargetC (toks : List String) : String :=
     | .error e => "err " ++ e.cls
   | _ => "bad-op"
 
+def dispatchOfTok? (tok : String) : Option (String → TryOutcome) :=
+  if tok == "echo" then some (fun d => .returned (some d))
+  else if tok == "none" then some (fun _ => .returned none)
+  else if tok == "empty" then some (fun _ => .returned (some ""))
+  else if tok == "raise" then some (fun _ => .raised)
+  else if tok.startsWith "text:" then (strOfHex? (tok.drop 5).toString).map fun t => (fun _ => .returned (some t))
+  else none
+
+def wpostC (toks : List String) : String :=
+  match toks with
+  | m :: ct :: ft :: cl :: st :: disp :: reads =>
+    let cl? : Option (Option Nat) := if cl == "none" then some none else cl.toNat?.map some
+    match m.toNat?, strOfHex? ct, strOfHex? ft, cl?, bytesOfHex? st, dispatchOfTok? disp, reads.mapM String.toNat? with
+    | some m, some ct, some ft, some cl, some stream, some d, some rs =>
+      let (status, hs, b) := doPost m ct ft cl stream rs d
+      let val := fun (k : String) => ((hs.find? (·.1 == k)).map (·.2)).getD "?"
+      String.intercalate " " [toString status, val "Content-length", hexOfStr (val "Content-type"), hexOfBytes b]
+    | _, _, _, _, _, _, _ => "bad-op"
+  | _ => "bad-op"
+
+def wcgiC (toks : List String) : String :=
+  match toks.mapM strOfHex? with
+  | some [enc, ct, body] =>
+    match cgiReply enc ct body with
+    | .ok (hs, b) =>
+      let val := fun (k : String) => ((hs.find? (·.1 == k)).map (·.2)).getD "?"
+      String.intercalate " " ["ok", val "Content-Length", hexOfStr (val "Content-Type"), hexOfBytes b]
+    | .error e => "err " ++ e.cls
+  | _ => "bad-op"
+
 def wireComponents : List (String × (List String → String)) := [
-  ("wclient", wclientC), ("wserver", wserverC), ("wframe", wframeC), ("wtarget", wtargetC)
+  ("wclient", wclientC), ("wserver", wserverC), ("wframe", wframeC), ("wtarget", wtargetC),
+  ("wpost", wpostC), ("wcgi", wcgiC)
 ]
 
 end JRV.Driver
